@@ -198,3 +198,172 @@ Proof.
   - destruct (first <=? i); [apply IH; auto|reflexivity].
   - destruct kwds2; [apply IH; auto|]. destruct ignore; [apply IH; auto|reflexivity].
 Qed.
+
+(* ---------- CPython's keyword loop is the reference loop ---------- *)
+Lemma py_find_spec : forall k names npo, NoDup (skipn npo names) ->
+  (match find_from (key_is k) npo names with
+   | Some j => Some j
+   | None => find_from (key_eq k) npo names
+   end) = option_map (Nat.add npo) (midx k (skipn npo names)).
+Proof.
+  intros k names npo ND. unfold find_from, midx.
+  destruct (find_idx (key_is k) (skipn npo names)) as [j|] eqn:F; simpl; [|reflexivity].
+  destruct (find_idx_Some _ _ _ _ 0 F) as [L E]. apply key_is_eq in E.
+  pose proof (midx_unique _ _ _ ND L E) as M. unfold midx in M. rewrite M. reflexivity.
+Qed.
+
+Definition py_inv {V} (kws : list (key * V)) (pnames : list nat) (npo nfill : nat) (slots : list (option V)) : Prop :=
+  forall kv i, In kv kws -> midx (fst kv) pnames = Some i ->
+    (nth (npo + i) slots None <> None <-> i < nfill).
+
+Lemma keys_nodup_cons : forall V k (v : V) rest, keys_nodup ((k, v) :: rest) = true ->
+  (forall kv, In kv rest -> key_same k (fst kv) = false) /\ keys_nodup rest = true.
+Proof.
+  intros V k v rest H. simpl in H. apply andb_true_iff in H as [A B]. split; [|exact B].
+  intros kv I. apply negb_true_iff in A. destruct (key_same k (fst kv)) eqn:E; [|reflexivity].
+  assert (X : existsb (fun kv => key_same k (fst kv)) rest = true) by (apply existsb_exists; exists kv; auto).
+  congruence.
+Qed.
+
+Lemma py_kw_ref : forall V (kws : list (key * V)) names npo nfill slots d,
+  NoDup (skipn npo names) -> all_str kws -> keys_nodup kws = true ->
+  py_inv kws (skipn npo names) npo nfill slots ->
+  py_kw kws names npo slots d = parse_ref kws (skipn npo names) nfill npo false slots d.
+Proof.
+  intros V kws names npo nfill; induction kws as [|[k v] rest IH]; intros slots d ND AS KN INV; [reflexivity|].
+  apply all_str_cons in AS as [S AS]. simpl in S. apply keys_nodup_cons in KN as [KH KN].
+  simpl. rewrite S. simpl. rewrite (py_find_spec _ _ _ ND).
+  destruct (midx k (skipn npo names)) as [i|] eqn:M; simpl.
+  - pose proof (INV (k, v) i (or_introl eq_refl) M) as F.
+    destruct (nth (npo + i) slots None) as [x|] eqn:N.
+    + assert (L : i < nfill) by (apply F; discriminate). apply Nat.leb_gt in L. rewrite L. reflexivity.
+    + assert (L : nfill <= i) by (destruct (Nat.le_gt_cases nfill i) as [G|G]; [exact G|apply F in G; congruence]).
+      apply Nat.leb_le in L. rewrite L. apply IH; auto.
+      intros kv i' I M'. rewrite nth_upd.
+      destruct (Nat.eq_dec i' i) as [->|NE].
+      * exfalso. destruct (midx_Some _ _ _ M) as [_ E1]. destruct (midx_Some _ _ _ M') as [_ E2].
+        pose proof (KH kv I) as Q. rewrite (key_eq_same _ _ _ E1 E2) in Q. discriminate Q.
+      * replace (npo + i' =? npo + i) with false by (symmetry; apply Nat.eqb_neq; lia). simpl.
+        apply (INV kv i'); [right; exact I|exact M'].
+  - destruct d as [d|]; [|reflexivity]. apply IH; auto. intros kv i' I M'. apply (INV kv i'); [right; exact I|exact M'].
+Qed.
+
+(* ---------- what the reference loop computes ---------- *)
+Definition kw_unknown (names : list nat) (k : key) : bool :=
+  match midx k names with None => true | Some _ => false end.
+Definition kw_dup (names : list nat) (first : nat) (k : key) : bool :=
+  match midx k names with Some i => negb (first <=? i) | None => false end.
+Definition kw_bad (names : list nat) (first : nat) (strict : bool) (k : key) : bool :=
+  kw_dup names first k || (strict && kw_unknown names k).
+
+Definition ref_at {V} (names : list nat) (first off : nat) (kws : list (key * V))
+           (values : list (option V)) (a : nat) : option V :=
+  if (off + first <=? a) && (a <? off + length names) && (a <? length values) then
+    match dict_get (nth (a - off) names 0) kws with Some v => Some v | None => nth a values None end
+  else nth a values None.
+
+Lemma dict_get_Some_In : forall V n (d : list (key * V)) v,
+  dict_get n d = Some v -> exists kv, In kv d /\ key_eq (fst kv) n = true.
+Proof.
+  intros V n d; induction d as [|[k x] r IH]; intros v H; simpl in H; [discriminate|].
+  destruct (key_eq k n) eqn:E.
+  - exists (k, x). split; [left; reflexivity|exact E].
+  - destruct (IH _ H) as [kv [I E']]. exists kv. split; [right; exact I|exact E'].
+Qed.
+
+Lemma dict_set_fresh : forall V k (v : V) d,
+  (forall kv', In kv' d -> key_same (fst kv') k = false) -> dict_set k v d = d ++ [(k, v)].
+Proof.
+  intros V k v d; induction d as [|[k' v'] r IH]; intros H; [reflexivity|]. simpl.
+  pose proof (H (k', v') (or_introl eq_refl)) as Q. simpl in Q. rewrite Q.
+  rewrite IH; [reflexivity|]. intros kv I. apply H. right. exact I.
+Qed.
+
+Lemma key_same_sym : forall a b, key_same a b = key_same b a.
+Proof. intros a b. unfold key_same. rewrite (Nat.eqb_sym (k_name a)). destruct (is_str a), (is_str b); reflexivity. Qed.
+
+Definition strict_of {V} (ignore : bool) (kwds2 : option (list (key * V))) : bool :=
+  match kwds2 with None => negb ignore | Some _ => false end.
+
+Lemma parse_ref_ok : forall V (kws : list (key * V)) names first off ignore values kwds2,
+  NoDup names -> all_str kws -> keys_nodup kws = true ->
+  (forall d, kwds2 = Some d -> forall kv kv', In kv kws -> In kv' d -> key_same (fst kv') (fst kv) = false) ->
+  match parse_ref kws names first off ignore values kwds2 with
+  | inl e => e <> EImpossible /\
+             existsb (fun kv => kw_bad names first (strict_of ignore kwds2) (fst kv)) kws = true
+  | inr (vals', kw') =>
+      existsb (fun kv => kw_bad names first (strict_of ignore kwds2) (fst kv)) kws = false /\
+      length vals' = length values /\
+      (forall a, nth a vals' None = ref_at names first off kws values a) /\
+      kw' = option_map (fun d => d ++ filter (fun kv => kw_unknown names (fst kv)) kws) kwds2
+  end.
+Proof.
+  intros V kws names first off ignore; induction kws as [|[k v] rest IH]; intros values kwds2 ND AS KN DJ.
+  - simpl. repeat split; auto.
+    + intros a. unfold ref_at. simpl. destruct (_ && _); reflexivity.
+    + destruct kwds2; simpl; [rewrite app_nil_r|]; reflexivity.
+  - apply all_str_cons in AS as [S AS]. simpl in S. apply keys_nodup_cons in KN as [KH KN].
+    simpl parse_ref. simpl existsb. simpl filter. unfold kw_bad at 1 3, kw_dup, kw_unknown at 1 2 4.
+    destruct (midx k names) as [i|] eqn:M.
+    + destruct (first <=? i) eqn:C; simpl; [|split; [discriminate|reflexivity]].
+      assert (DJ' : forall d, kwds2 = Some d -> forall kv kv', In kv rest -> In kv' d -> key_same (fst kv') (fst kv) = false)
+        by (intros d E kv kv' I I'; apply (DJ d E); [right; exact I|exact I']).
+      specialize (IH (upd (off + i) (Some v) values) kwds2 ND AS KN DJ').
+      destruct (parse_ref rest names first off ignore (upd (off + i) (Some v) values) kwds2) as [e|[vals' kw']].
+      * destruct IH as [A B]. split; [exact A|exact B].
+      * destruct IH as [B [L [N K]]]. rewrite upd_length in L. repeat split; auto.
+        intros a. rewrite N. unfold ref_at. rewrite upd_length. simpl dict_get.
+        destruct (midx_Some _ _ _ M) as [Li Ei]. apply Nat.leb_le in C.
+        destruct ((off + first <=? a) && (a <? off + length names) && (a <? length values)) eqn:CC.
+        { apply andb_true_iff in CC as [CC C3]. apply andb_true_iff in CC as [C1 C2].
+          apply Nat.leb_le in C1. apply Nat.ltb_lt in C2. apply Nat.ltb_lt in C3.
+          destruct (Nat.eq_dec a (off + i)) as [->|NE].
+          - replace (off + i - off) with i by lia. rewrite Ei.
+            destruct (dict_get (nth i names 0) rest) as [x|] eqn:G.
+            + exfalso. destruct (dict_get_Some_In _ _ _ _ G) as [kv [I E]].
+              pose proof (KH kv I) as Q. rewrite (key_eq_same _ _ _ Ei E) in Q. discriminate Q.
+            + rewrite nth_upd. rewrite Nat.eqb_refl. simpl. apply Nat.ltb_lt in C3. rewrite C3. reflexivity.
+          - assert (X : key_eq k (nth (a - off) names 0) = false).
+            { destruct (key_eq k (nth (a - off) names 0)) eqn:E; [|reflexivity].
+              assert (L2 : a - off < length names) by lia.
+              pose proof (midx_unique _ _ _ ND L2 E) as M2. rewrite M in M2. inversion M2. lia. }
+            rewrite X. rewrite nth_upd. replace (a =? off + i) with false by (symmetry; apply Nat.eqb_neq; exact NE).
+            reflexivity. }
+        { rewrite nth_upd. destruct ((a =? off + i) && (off + i <? length values)) eqn:U; [|reflexivity].
+          apply andb_true_iff in U as [U1 U2]. apply Nat.eqb_eq in U1. apply Nat.ltb_lt in U2. subst a.
+          exfalso. assert (X : (off + first <=? off + i) && (off + i <? off + length names) && (off + i <? length values) = true).
+          { apply andb_true_iff; split; [apply andb_true_iff; split|]; [apply Nat.leb_le|apply Nat.ltb_lt|apply Nat.ltb_lt]; lia. }
+          congruence. }
+    + simpl. destruct kwds2 as [d|].
+      * simpl strict_of in *. simpl.
+        assert (FR : dict_set k v d = d ++ [(k, v)]).
+        { apply dict_set_fresh. intros kv' I. apply (DJ d eq_refl (k, v) kv'); [left; reflexivity|exact I]. }
+        rewrite FR.
+        assert (DJ' : forall d0, Some (d ++ [(k, v)]) = Some d0 -> forall kv kv', In kv rest -> In kv' d0 ->
+                      key_same (fst kv') (fst kv) = false).
+        { intros d0 E kv kv' I I'. inversion E; subst d0. apply in_app_or in I' as [I'|[<-|[]]].
+          - apply (DJ d eq_refl); [right; exact I|exact I'].
+          - simpl. apply KH. exact I. }
+        specialize (IH values (Some (d ++ [(k, v)])) ND AS KN DJ').
+        destruct (parse_ref rest names first off ignore values (Some (d ++ [(k, v)]))) as [e|[vals' kw']].
+        { exact IH. }
+        destruct IH as [B [L [N K]]]. repeat split; auto.
+        { intros a. rewrite N. unfold ref_at. simpl dict_get.
+          destruct ((off + first <=? a) && (a <? off + length names) && (a <? length values)) eqn:CC; [|reflexivity].
+          apply andb_true_iff in CC as [CC C3]. apply andb_true_iff in CC as [C1 C2].
+          apply Nat.leb_le in C1. apply Nat.ltb_lt in C2.
+          rewrite (midx_None _ _ (a - off) M) by lia. reflexivity. }
+        { rewrite K. simpl. rewrite <- app_assoc. reflexivity. }
+      * destruct ignore; simpl; [|split; [discriminate|reflexivity]].
+        assert (DJ' : forall d, @None (list (key * V)) = Some d -> forall kv kv', In kv rest -> In kv' d ->
+                      key_same (fst kv') (fst kv) = false) by (intros d E; discriminate).
+        specialize (IH values None ND AS KN DJ').
+        destruct (parse_ref rest names first off true values None) as [e|[vals' kw']].
+        { exact IH. }
+        destruct IH as [B [L [N K]]]. repeat split; auto.
+        intros a. rewrite N. unfold ref_at. simpl dict_get.
+        destruct ((off + first <=? a) && (a <? off + length names) && (a <? length values)) eqn:CC; [|reflexivity].
+        apply andb_true_iff in CC as [CC C3]. apply andb_true_iff in CC as [C1 C2].
+        apply Nat.leb_le in C1. apply Nat.ltb_lt in C2.
+        rewrite (midx_None _ _ (a - off) M) by lia. reflexivity.
+Qed.
